@@ -68,7 +68,10 @@ class Ctx:
         return bool(ok)
 
     def floor(self, rule, what, count, minimum):
-        """Fail closed when a rule matches fewer sites than were confirmed by hand."""
+        """Fail closed when a rule matches fewer sites than were confirmed by hand.
+        minimum: a number, or {config: number} where feature configurations legitimately differ (counted per configuration)."""
+        if isinstance(minimum, dict):
+            minimum = minimum.get(self.config, minimum.get("default", 0))
         return self.ob(rule, "floor:" + what, count >= minimum, "",
                        "%s: matched %d site(s), floor %d" % (what, count, minimum), kind="floor")
 
